@@ -201,7 +201,11 @@ var urlFrags = []string{"http://example.org/a?b=c#d", "https://x.test/", "/rel/p
 	"data:image/png;base64,iVBO\nRw0K Ggo=", "ftp://f/", "http://a b/", "http://[::1]/", "http://%41/", "tel:+1", "x:y", ":x", "http:", "http://example.org", "HTTP://EXAMPLE.ORG/",
 	"\x01http://x/", "http://x/\x7f", "vbscript:x", "http://user:pw@h/", "http://h/%zz", " http://x/", "a:b:c", "//", "", "  ", "http://h/a;b?c=d&e=f;g", "./a:b",
 	// opaque URLs with an allowlisted scheme (no "//"): browsers resolve them like hierarchical ones
-	"https:evil.example/x.png", "http:x.png", "mailto:x", "HTTPS:host/p?q"}
+	"https:evil.example/x.png", "http:x.png", "mailto:x", "HTTPS:host/p?q",
+	// a scheme followed by a rooted path and no authority (net/url: Scheme set, Host and Opaque empty), bare schemes
+	"javascript:/**/alert(1)", "data:/x", "vbscript:///x", "JAVASCRIPT:/x", "javascript:", "ftp:/etc/passwd", "http:/p", "https:///p",
+	// values net/url cannot parse
+	"%zz", "http://[::1", ":", "http://h:port/", "ht\x7ftp://x"}
 var styleFrags = []string{"color: red", "color: RED", "color:#fff", "width: 10px", "text-align: center", "background: url(http://x/y.png)", "background: url(javascript:alert(1))",
 	"color: expression(alert(1))", "-webkit-color: red", "-moz--webkit-color: red", "COLOR: blue", "color: r\\65 d", "color: \\72 ed", "width: 1\\30 px", "font-family: 'a b', serif",
 	"float: left", "float: LEFT", "unknown-prop: x", "color: red !important", "/* c */ color: red", "color: red; width: 5px", "color", ": red", "color: ;", "{}", "color: red;;width:1px",
